@@ -53,14 +53,20 @@ threads (Lean: Op.outside 7 / 8; the key holds the thread, not its scheduler); a
 batch flush by a raising on_before_batch_flush handler (`abort`: Exception or BaseException), the bodies it left blocked stay in
 flight, the next computation (after a scheduler reset or without one) must get the very same tasks; a task nobody started is
 COMPLETED FROM OUTSIDE (`extdone`: FutureBase.set_value / set_error on the creating or on another thread - an ordinary
-Op.complete of the history)."""
+Op.complete of the history).
+
+Round 6 (audit 3, B6): the receiver class may have VALUE equality (`insteq`: frozen dataclass with a compare=False field /
+own __eq__ + __hash__) with instances that are == without being the same object.  Which instances are == is an input of the
+model (header item `(eqv (tok rep)...)`, Lean: Lib/DedupEq.lean stepE - the table is keyed up to ==, as a dict is); the
+observer keeps receivers apart by identity ("different instances never share a task") and rejects the sharing under the
+clause name equal-instances (OPEN FINDING dedup/fail:equal-instances@call, C12_equal_instances_counterexample)."""
 import hashlib
 import json
 import random
 
 PID = "C12"
 LEVEL = "proof"
-LEAN_MODULES = ["AsynqModel.Theorems.C12"]
+LEAN_MODULES = ["AsynqModel.Theorems.C12", "AsynqModel.Theorems.C12e"]
 # HEADLINE: statements with content about the model over ALL histories / all signatures (each hypothesis has a machine-checked
 # necessity witness, see MANIFEST level_note).
 HEADLINE = [
@@ -83,6 +89,13 @@ HEADLINE = [
     "AsynqModel.Dedup.C12_one_creation_per_period",       # one registered task per in-flight period
     "AsynqModel.Dedup.C12_shared_while_calm",
     "AsynqModel.Dedup.C12_same_outcome_for_all_callers",  # any two readers of one task receive the same outcome
+    # round 6 (audit 3, B6): == between receiver instances is an input of the model (Lib/DedupEq.lean, Theorems/C12e.lean)
+    "AsynqModel.Dedup.C12_equal_instances_counterexample",        # ==-equal distinct instances share a task; spec rejects the model's run
+    "AsynqModel.Dedup.C12_equal_instances_dirty_counterexample",  # dirty() through the equal instance evicts the other's entry
+    "AsynqModel.Dedup.C12_spec_holds_partial_eq",         # histOk + no two distinct instances == : model (stepE) passes `spec`
+    "AsynqModel.Dedup.C12_instances_disjoint_partial",    # receivers that are not == never produce the same TABLE key
+    "AsynqModel.Dedup.C12_stepE_trivial",                 # no two distinct tokens == : stepE is step (all other theorems are about this case)
+    "AsynqModel.Dedup.C12_runE_trivial",
 ]
 # true by construction of the model (one branch of `step` restated for an arbitrary state, a guard written into `step`,
 # `DecoObj.apply` returning what it was given, a no-op constructor): their content is the correspondence, they are NOT
@@ -142,7 +155,12 @@ RULE = ("real asynq programs: 1-3 @deduplicate() functions (function / method on
         "75% followed by a scheduler reset) with later computations using the same keys, `extdone` = a never-started task "
         "completed from outside by set_value / set_error on the creating / another thread (10% of the top-level acts); plus "
         "180 named schedules of these (5 signatures x replaced / emptied x thread pairs; abort at flush 1 / 2 x kind x "
-        "reset / reset + call / nothing)")
+        "reset / reset + call / nothing); "
+        "round 6: receiver classes with value equality (`insteq`, drawn from a generator seeded by the content of the case: 30% "
+        "of the generated cases that have a method and >= 2 instances; frozen dataclass with a compare=False field / own "
+        "__eq__ + __hash__; which instances are == from 8 group patterns incl. all-different) plus 78 named schedules (3 "
+        "signatures x 2 styles x equal / not equal x same yield / later step while blocked / dirty() through the other "
+        "instance / instance passed through the class / after completion; 3 instances x colliding hash / falsy)")
 TRUSTED = [
     "hand-written Lean model AsynqModel.Lib.Dedup tied to the code by this differential run only",
     "Python harness checks/c12.py (token <-> object identity mapping, event log written by the generated bodies - start / "
@@ -198,7 +216,19 @@ ASSUMPTIONS = [
     "(AttributeError at the first call, by construction of PureAsyncDecorator) and @async_proxy() functions may return "
     "futures that are not tasks (no `running` attribute: the second call raises AttributeError; DESIGN.md section 5 C12) - "
     "neither is part of the statement",
-    "receiver instances compare by identity (two instances that are == share a key by design of the key)",
+    "OPEN FINDING, inside the statement ('different instances never share a task'): two DISTINCT receiver instances that "
+    "are == (frozen dataclass with a compare=False field, hand-written __eq__ / __hash__) share one table entry - the key "
+    "holds the bound instance and a dict compares keys with ==.  Generated in both tiers (`insteq`: 30% of the generated "
+    "cases with a method and >= 2 instances, 2 class styles; 78 named schedules incl. the harmless neighbour 'value "
+    "equality, all instances different'), modelled as the code is (Lib/DedupEq.lean: stepE keys the table up to ==, which "
+    "instances are == is the header item `eqv`), rejected by the unchanged observer (receivers are identities there) "
+    "under the clause name equal-instances (specClauseE: the name is given only when the SAME observations pass once "
+    "equal instances are taken for one object; signature dedup/fail:equal-instances@call), witnesses "
+    "C12_equal_instances_counterexample / _dirty_counterexample.  Hypothesis `eqvId` (no two distinct instance tokens are "
+    "==) of C12_spec_holds_partial_eq; every theorem of Theorems/C12.lean speaks about `step` = stepE under eqvId "
+    "(C12_stepE_trivial).  Only RECEIVERS are made ==-equal-but-distinct: argument VALUES that are == are one value for the "
+    "statement ('arguments normalised'; tokens 76 / 77 / large ints are such values), and an ==-equal instance inside a "
+    "('p<n>', value) tuple is not generated",
     "one thread token per threading.Thread OBJECT (slot + 3 * incarnation); a retired thread is joined before its "
     "threadEnd is logged and never calls again; a new helper thread that did not get the ident of a finished, logged "
     "thread is parked before it calls anything and creation is retried (<= 25 short attempts), so that later threads "
@@ -526,7 +556,23 @@ def gen_case(rng):
             del case["top2"]
         if "more" not in case:
             case["more"] = [gen_actors([1, 1, 2]) for _ in range(rng.choice([1, 1, 2]))]
+    add_insteq(case)
     return case
+
+
+INSTEQ_GROUPS = {2: [[0, 0], [0, 0], [0, 1]], 3: [[0, 0, 0], [0, 0, 1], [0, 1, 0], [0, 1, 1], [0, 1, 2]]}
+
+
+def add_insteq(case):
+    """round 6 (audit 3, B6): the receiver class has VALUE equality - a frozen dataclass with a compare=False field (`dc`)
+    or a hand-written __eq__ / __hash__ (`eq`) - and some of the instances are == without being the same object
+    (`groups`: the value each instance compares by).  The choice is drawn from a generator seeded by the CONTENT of the
+    case, not from the stream of gen_case: the cases of a seed are the ones they were before this dimension existed."""
+    if case.get("instcopy") or case["ninst"] < 2 or not any(d["kind"] == "method" for d in case["fns"]):
+        return
+    erng = random.Random(int(hashlib.sha1(json.dumps(case, sort_keys=True).encode()).hexdigest()[:12], 16))
+    if erng.random() < 0.3:
+        case["insteq"] = {"style": erng.choice(["dc", "eq"]), "groups": erng.choice(INSTEQ_GROUPS[min(3, case["ninst"])])}
 
 
 SIGS = [
@@ -844,6 +890,49 @@ def interaction_schedules():
     return json.loads(json.dumps(cases))
 
 
+def equal_instance_schedules():
+    """round 6 (audit 3, B6): a method reached through two DISTINCT instances of a class with value equality (frozen
+    dataclass with a compare=False field / hand-written __eq__ and __hash__) that are == (groups [0, 0]: OPEN FINDING
+    dedup/fail:equal-instances@call - one table entry, the body runs on the other instance) or not == (groups [0, 1]: the
+    harmless neighbour, must pass): in the same yield, in a later step while the first call is blocked, a dirty() through
+    the other instance while in flight, the instance passed explicitly through the class, after completion"""
+    cases = []
+    two_items = {"steps": [{"pre": [], "y": "item"}, {"pre": [], "y": "item"}], "post": [], "end": "ret"}
+    one_item = {"steps": [{"pre": [], "y": "item"}], "post": [], "end": "ret"}
+    for decl in (SIGS[4], SIGS[5], SIGS[9]):
+        for style in ("dc", "eq"):
+            for groups in ([0, 0], [0, 1]):
+                c1, c2, c3 = [["call", 0] + x for x in two_spellings(decl, 0)]
+                o1, o2, o3 = [["call", 0] + x for x in two_spellings(decl, 1)]
+                base = {"fns": [decl], "ninst": 2, "insteq": {"style": style, "groups": groups}}
+                cases.append(dict(base, bodies=[one_item], actors=[[{"acts": [c1, o1, c2, o2, c3, o3], "wait": "mine"}]]))
+                cases.append(dict(base, bodies=[two_items], actors=[
+                    [{"acts": [c1], "wait": "mine"}],
+                    [{"acts": [], "wait": "tick"}, {"acts": [o1, o2, c2], "wait": "mine"}]]))
+                cases.append(dict(base, bodies=[two_items], actors=[
+                    [{"acts": [c1], "wait": "mine"}],
+                    [{"acts": [], "wait": "tick"}, {"acts": [["dirty"] + o1[1:], c1, o1], "wait": "mine"}]]))
+                via_cls = ["call", 0, "cls", [101] + o1[3], o1[4], 0]
+                cases.append(dict(base, bodies=[two_items], actors=[
+                    [{"acts": [c1], "wait": "mine"}],
+                    [{"acts": [], "wait": "tick"}, {"acts": [via_cls, o2], "wait": "mine"}]]))
+                cases.append(dict(base, bodies=[one_item], actors=[
+                    [{"acts": [c1], "wait": "mine"}, {"acts": [o1, c2], "wait": "mine"}]]))
+    # three instances, two of them equal; together with a colliding __hash__ / falsy receivers
+    decl = SIGS[4]
+    for style in ("dc", "eq"):
+        for groups in ([0, 1, 0], [0, 1, 1], [0, 1, 2]):
+            for cls in (0, 1, 2):
+                cs = [["call", 0] + two_spellings(decl, i)[i % 2] for i in range(3)]
+                c = {"fns": [decl], "ninst": 3, "insteq": {"style": style, "groups": groups}, "bodies": [two_items], "actors": [
+                    [{"acts": [cs[0]], "wait": "mine"}],
+                    [{"acts": [], "wait": "tick"}, {"acts": [cs[1], cs[2], cs[0]], "wait": "mine"}]]}
+                if cls:
+                    c["cls"] = cls
+                cases.append(c)
+    return json.loads(json.dumps(cases))
+
+
 def reset_schedules():
     """round 5: reset / abort / completed-from-outside paths.  The key of a call is (function, arguments, THREAD): it does
     not change when the thread's scheduler object is replaced (asynq.scheduler.reset(), what a request / test harness does
@@ -986,7 +1075,7 @@ def corpus():
 def plan(tier, seed):
     rng = random.Random(seed * 1000003 + 12)
     n = 6000 if tier == "quick" else 60000
-    cases = corpus() + named_schedules() + thread_schedules() + toplevel_schedules() + interaction_schedules() + reset_schedules()
+    cases = corpus() + named_schedules() + thread_schedules() + toplevel_schedules() + interaction_schedules() + reset_schedules() + equal_instance_schedules()
     cases += [sharers_case(n) for n in ([300, 2500] if tier == "quick" else [300, 2500, 20000])]
     frng = random.Random(seed * 7919 + 1212)
     cases += fanout_cases(tier, frng)
@@ -1015,7 +1104,7 @@ def shrink(case):
                 if not c[key]:
                     del c[key]
                 yield c
-    for key in ("cls", "instcopy", "abort"):
+    for key in ("cls", "instcopy", "abort", "insteq"):
         if case.get(key):
             c = clone()
             del c[key]
@@ -1142,6 +1231,10 @@ def signature(case, v):
     for c in CONFLATIONS:
         if sp.startswith("fail:%s@" % c):
             return "dedup/fail:%s@call" % c
+    if sp.startswith("fail:equal-instances@"):
+        # ==-equal distinct receivers share one table entry: one finding whichever operation shows it (a call answered with
+        # the other instance's task, a dirty() that evicts the other instance's entry)
+        return "dedup/fail:equal-instances@call"
     return "dedup/%s" % sp
 
 
@@ -1291,8 +1384,33 @@ def run_case(case):
         cls_dict["__bool__"] = lambda self: False
         cls_dict["__len__"] = lambda self: 0
         feat("receiver-falsy")
-    C = type("C", (object,), cls_dict)
-    insts = [C() for _ in range(max(1, ninst))]
+    insteq = case.get("insteq") if (not case.get("instcopy") and ninst > 1) else None
+    eqv_pairs = []
+    if insteq:
+        # receiver instances with VALUE equality: instance i compares (and hashes) by groups[i]; `tag` is not compared
+        groups = [insteq["groups"][i % len(insteq["groups"])] for i in range(ninst)]
+        if insteq.get("style") == "dc":
+            import dataclasses
+            C = dataclasses.make_dataclass(
+                "C", [("grp", int, dataclasses.field(default=0)), ("tag", int, dataclasses.field(default=0, compare=False))],
+                namespace=cls_dict, frozen=True)
+            feat("receiver-class-frozen-dataclass-compare-False-field")
+        else:
+            def c_init(self, grp=0, tag=0):
+                self.grp = grp
+                self.tag = tag
+            cls_dict["__init__"] = c_init
+            cls_dict["__eq__"] = lambda self, other: type(other) is type(self) and other.grp == self.grp
+            cls_dict["__ne__"] = lambda self, other: not (type(other) is type(self) and other.grp == self.grp)
+            cls_dict.setdefault("__hash__", lambda self: hash(("C", self.grp)))
+            C = type("C", (object,), cls_dict)
+            feat("receiver-class-custom-eq-hash")
+        insts = [C(groups[i], i) for i in range(ninst)]
+        eqv_pairs = [(100 + i, 100 + groups.index(g)) for i, g in enumerate(groups) if groups.index(g) != i]
+        feat("receiver-instances-equal-not-identical" if eqv_pairs else "receiver-class-value-equality-all-distinct")
+    else:
+        C = type("C", (object,), cls_dict)
+        insts = [C() for _ in range(max(1, ninst))]
     if case.get("instcopy"):
         insts[0].note = ["an attribute"]
         insts = [insts[0]] + [copy.copy(insts[0]) for _ in insts[1:]]     # distinct objects: distinct receivers
@@ -2114,6 +2232,8 @@ def run_case(case):
         hdr.append("(fn %s (%s) (%s) %d %d %d)" % (d["kind"], ps(d["pos"]), ps(d["kwonly"]),
                                                    1 if d["varargs"] else 0, 1 if d["varkw"] else 0, d.get("posonly", 0)))
     hdr.append("(deco %d %s)" % (nfn, " ".join("(%d %d)" % (fi, outer_of[fi]) for fi in order)))
+    if eqv_pairs:
+        hdr.append("(eqv %s)" % " ".join("(%d %d)" % p for p in eqv_pairs))
     hdr.extend(kg_lines)
     lines = ["(case dedup %d %s)" % (case["id"], " ".join(hdr))] + log + ["(end)"]
     fl = sorted(feats)
